@@ -3,6 +3,7 @@ package kernel
 import (
 	"fmt"
 	"hash/fnv"
+	"os"
 	mathrand "math/rand"
 	"runtime/debug"
 	"sort"
@@ -56,6 +57,7 @@ type Run struct {
 	trace   []string
 	noTr    bool
 	closers []func()
+	enders  []func()
 	seq     int
 }
 
@@ -67,7 +69,12 @@ type abortRun struct{}
 // Engine is one property's simulated workload + oracles.
 type Engine func(r *Run)
 
+var liveTrace = os.Getenv("VERIF_LIVE_TRACE") != ""
+
 func (r *Run) Tracef(format string, a ...any) {
+	if liveTrace {
+		fmt.Fprintf(os.Stderr, "TRACE "+format+"\n", a...)
+	}
 	if r.noTr {
 		return
 	}
@@ -167,8 +174,11 @@ func panicSite(stack string) string {
 	return "unknown"
 }
 
-// OnClose registers a teardown action run (inside the bubble) after results were copied out.
+// OnClose registers a teardown action run (inside the bubble) after results were copied out and before the scheduler drains.
 func (r *Run) OnClose(f func()) { r.closers = append(r.closers, f) }
+
+// OnEnd registers an action run after the scheduler has drained (e.g. unsetting global hook variables).
+func (r *Run) OnEnd(f func()) { r.enders = append(r.enders, f) }
 
 // Sleep advances the fake clock (driver goroutine only).
 func (r *Run) Sleep(d time.Duration) {
@@ -237,15 +247,25 @@ func Exec(t *testing.T, sp Spec, engine Engine) *Result {
 			res.SimSec = time.Since(r.Start).Seconds()
 			res.Steps = int64(r.Sched.Steps)
 			res.SchedHash = r.Sched.hash
-			// teardown
-			r.Sched.Shutdown()
+			// teardown: close what the engine registered, let everything that can finish do so under the (frozen)
+			// scheduler, and leave goroutines that can never be enabled parked (releasing them could block the bubble on a
+			// mutex held by a stranded goroutine; the end-of-bubble panic for leaked goroutines is recovered by Exec)
 			for i := len(r.closers) - 1; i >= 0; i-- {
 				func() {
 					defer func() { recover() }()
 					r.closers[i]()
 				}()
 			}
-			r.Sched.Shutdown()
+			func() {
+				defer func() { recover() }()
+				r.Sched.Drain()
+			}()
+			for i := len(r.enders) - 1; i >= 0; i-- {
+				func() {
+					defer func() { recover() }()
+					r.enders[i]()
+				}()
+			}
 		})
 	}()
 	return res
